@@ -6,6 +6,7 @@ import csv
 import json
 import multiprocessing
 import os
+import shutil
 import sys
 import tempfile
 import threading
@@ -26,14 +27,14 @@ RULE = (
     "the example script), with and without split-write injection. Every subject has its own input, so a row identifies the "
     "evaluation that produced it. Non-trivial = schedule with at least one context switch between two workers' operations; "
     "distinct = distinct hash of the sequence of (worker, operation, object) -- i.e. distinct interleavings."
-    ' Further families: threads interleaved at source-line level inside the shared evaluator (five evaluator profiles), evaluations that raise inside a history, process histories in fresh interpreters and on a simulated file system with 2-second modification times, a parent statistic before and after rows are added by forked workers / a second aggregator object / threads.'
+    ' Further families: threads interleaved at source-line level inside the shared evaluator (five evaluator profiles), evaluations that raise inside a history, process histories in fresh interpreters and on a simulated file system with 2-second modification times, a parent statistic before and after rows are added by forked workers / a second aggregator object / threads; threads whose evaluations fork the real worker pools while other threads are inside the package, with a fork-safety monitor on every threading lock the package creates (a forked worker waiting for a lock whose holder does not exist in it).'
 )
 ASSUMPTIONS = [
     "a write() may be split into two raw writes (legal OS behaviour for rows larger than the buffer) -- only used to make missing mutual exclusion observable; never a violation on its own under the locks",
     "make_statistic raising on a file without any complete row is accepted (the statement is silent about an empty table)",
     "the evaluator inside uses the serial pool substitute",
 ]
-MINIMUM = {"C16.line_level_schedules": 50, "C16.schedules_judged": 600, "C16.process_histories_judged": 10, "C16.snapshots_judged": 100, "C16.collisions_exercised": 100}
+MINIMUM = {"C16.fork_histories_judged": 3, "C16.line_level_schedules": 50, "C16.schedules_judged": 600, "C16.process_histories_judged": 10, "C16.snapshots_judged": 100, "C16.collisions_exercised": 100}
 BUDGET_S = {"quick": 1200, "thorough": 900}
 SHARDS = {"quick": 16, "thorough": 900}
 
@@ -69,6 +70,8 @@ def cases(tier, seed):
         yield {"fam": "processes_fresh", "i": i}
     for i in range(8 if tier == "quick" else 96):
         yield {"fam": "parent_stat", "i": i}
+    for i in range(6 if tier == "quick" else 120):
+        yield {"fam": "fork_threads", "i": i}
 
 
 def setup(ctx):
@@ -649,6 +652,70 @@ def run_processes(ctx, hist, r, split, use_pool, det0, pool_first=False, continu
         ctx.nontrivial(sched.interleaving_hash([(str(a), b, c) for a, b, c in tr]), json.dumps(hist, sort_keys=True))
 
 
+def run_fork_threads(ctx, i):
+    """threads on one aggregator whose evaluator uses the real pools: every evaluation forks workers while the other
+    threads are inside the package (vf.helpers.forksafety, in its own process group).  A forked worker that waits for
+    a lock whose holder does not exist in its process is a call that can never return."""
+    import signal
+    import subprocess
+    from vf import harness
+
+    d = tempfile.mkdtemp(prefix="c16f_", dir=os.environ.get("VERIF_TMP"))
+    det = {"family": "fork_threads", "seed": int(ctx.seed), "i": i}
+    feats = {"mode": "fork_threads"}
+    p = subprocess.Popen([sys.executable, "-B"] + harness.own_flags() + ["-m", "vf.helpers.forksafety", d, str(1000 * int(ctx.seed) + i), str(i)], cwd=harness.VERIF,
+                         env=dict(os.environ, VERIF_FORKSAFETY_OWN_GROUP="1"), stdout=subprocess.PIPE, stderr=subprocess.PIPE, text=True, start_new_session=True)
+    try:
+        out, err = p.communicate(timeout=240)
+    except subprocess.TimeoutExpired:
+        out, err = "", "watchdog"
+    finally:
+        try:
+            os.killpg(p.pid, signal.SIGKILL)
+        except (ProcessLookupError, PermissionError):
+            pass
+        try:
+            p.communicate(timeout=10)
+        except Exception:  # noqa: BLE001
+            pass
+    ctx.count("evaluations")
+    line = out.strip().splitlines()[-1] if out.strip() else ""
+    try:
+        o = json.loads(line)
+    except ValueError:
+        ctx.count("C16.inconclusive_watchdog")
+        if err != "watchdog":
+            ctx.errors.append({"case": {"fam": "fork_threads", "i": i}, "tb": "fork-safety helper gave no result: " + err[-1200:]})
+        shutil.rmtree(d, ignore_errors=True)
+        return
+    shutil.rmtree(d, ignore_errors=True)
+    ctx.count("C16.forks_observed", o["forks"])
+    ctx.count("C16.fork_histories_overlapping_evaluations", o["overlapping_evaluations"])
+    ctx.count("C16.package_thread_locks_tracked", len(o["owned_locks"]))
+    ctx.count("C16.package_thread_lock_acquisitions", o["acquisitions"])
+    ctx.count("C16.forks_while_another_thread_held_a_package_lock", o["forks_with_lock_held_elsewhere"])
+    det = dict(det, profile=o["profile"], threads=o["threads"], owned_locks=o["owned_locks"], holds=o["holds"], forks=o["forks"])
+    if o["witnesses"]:
+        ctx.viol("call_never_returned", dict(det, reason="a worker process forked while another thread held a lock of the package waits for that lock; its holder does not exist in the worker",
+                                             witnesses=o["witnesses"][:3], calls_not_returned=o["stuck"]), features=dict(feats, kind="call_never_returned"))
+        return
+    if o["stuck"]:
+        ctx.count("C16.inconclusive_watchdog")
+        return
+    ctx.count("C16.fork_histories_judged")
+    if o["errors"]:
+        ctx.viol("call_raised", dict(det, errors=o["errors"][:3]), features=dict(feats, kind="call_raised"))
+        return
+    for n in o["subjects"]:
+        c = o["rows"].get(n, 0)
+        if c != 1:
+            kind = "submitted_subject_without_row" if c == 0 else "subject_recorded_more_than_once"
+            ctx.viol(kind, dict(det, subject=n, rows=o["rows"]), features=dict(feats, kind=kind))
+            return
+    if o["overlapping_evaluations"] > 0:
+        ctx.nontrivial("fork_threads", o["profile"], o["threads"], o["forks"], o["overlapping_evaluations"])
+
+
 def run(case, ctx):
     from vf import sched
 
@@ -661,6 +728,8 @@ def run(case, ctx):
 
         harness.run_case_fresh(ctx, {"fam": "processes", "i": 4 + 5 * i if i % 2 == 0 else 3 + 4 * i, "fresh": True})
         return
+    if fam == "fork_threads":
+        return run_fork_threads(ctx, i)
     r = gen.rng(ctx.seed, "c16", fam, i)
     det0 = {"family": fam}
     if fam == "parent_stat":
